@@ -138,6 +138,7 @@ def _run_control(pid, tier, seed, with_history, rule):
         fixed = pmap(P._fix_worker, [{"rules": c["rules"], "config": {}, "history": [tuple(o) for o in c.get("history", [])]} for c in cases])
         for c, f in zip(cases, fixed):
             c["history"] = [list(o) for o in f["history"]]
+            if f.get("fix_timeout"): c["fix_timeout"] = True
     ws = pmap(_control_worker, cases)
     viol = []
     tot = succ = 0
